@@ -36,6 +36,9 @@ pub const SIGMA: [char; 43] = [
 /// 14-symbol core for the longer strings
 pub const CORE: [char; 14] = ['1', 'a', '.', '_', ':', ' ', '\n', '"', '\'', '\\', '@', '+', '-', '§'];
 
+/// 4-symbol literal alphabet (quote runs of any length, embedded quotes, line breaks inside literals)
+pub const QUOTES: [char; 4] = ['a', '"', '\'', '\n'];
+
 /// 7-symbol layout alphabet (blank lines, trailing blanks, newlines inside literals and annotations)
 pub const LAYOUT: [char; 7] = ['1', ' ', '\t', '\n', '\r', '"', '@'];
 
@@ -795,6 +798,7 @@ fn segments(tier: Tier) -> Vec<Seg> {
     let full_len: u32 = tier.pick(4, 5);
     let core_len: u32 = tier.pick(6, 7);
     let layout_len: u32 = tier.pick(7, 8);
+    let quotes_len: u32 = tier.pick(11, 13);
     vec![
         // all strings of length <= full_len: prefix of length 0..full_len-1 + one symbol (the empty string rides on element 0)
         Seg { name: "full", alphabet: &SIGMA, lo: 0, hi: full_len - 1, suffix: 1 },
@@ -802,6 +806,8 @@ fn segments(tier: Tier) -> Vec<Seg> {
         Seg { name: "core", alphabet: &CORE, lo: full_len - 1, hi: core_len - 2, suffix: 2 },
         // layout strings of length full_len+1 ..= layout_len
         Seg { name: "layout", alphabet: &LAYOUT, lo: full_len - 2, hi: layout_len - 3, suffix: 3 },
+        // literal strings of length core_len+1 ..= quotes_len
+        Seg { name: "quotes", alphabet: &QUOTES, lo: core_len - 3, hi: quotes_len - 4, suffix: 4 },
         Seg { name: "pairs", alphabet: &[], lo: 0, hi: 0, suffix: 0 },
     ]
 }
@@ -838,6 +844,7 @@ fn run_strings(seg: &Seg, tier: Tier, prefix: &[char], cx: &mut Ctx) {
         // a string enumerated by an earlier segment is not counted twice
         let dup = match seg.name {
             "layout" => chars.len() <= core_len && all_in(&chars, &CORE),
+            "quotes" => chars.len() <= core_len,
             _ => false,
         };
         if dup {
@@ -952,7 +959,7 @@ impl Property for C13 {
         let layout_len = tier.pick(7, 8);
         Meta {
             rule: format!(
-                "every string of length <= {} over the 43-symbol alphabet (one representative per lexer character class: 1 a _ : . space tab LF CR form-feed NUL \" ' \\ @ ` $ and the 23 operator constituents ? ! ~ < > = + - | & ^ # % * / ( ) {{ }} [ ] , ; plus the 2-byte letter e-acute, the 2-byte non-token character section-sign and a 4-byte emoji); every string of length {}..={} over the 14-symbol core (1 a . _ : space LF \" ' \\ @ + - section-sign); every string of length {}..={} over the 7-symbol layout alphabet (1 space tab LF CR \" @) not already in the core space; every ordered pair of the 60 operator spellings tight, separated by a space, separated by a newline, and between an identifier and a number; each spelling alone. Each string is lexed by the real `lex`; Ok results are judged (lossless, non-empty, positions, operator spelling and longest match, class shape, blank-line separator), Err results are only counted. A case is non-trivial when `lex` returned Ok with at least two tokens; the enumerated strings are pairwise distinct by construction (overlaps between the spaces are skipped), so the count is of distinct cases.",
+                "every string of length <= {} over the 43-symbol alphabet (one representative per lexer character class: 1 a _ : . space tab LF CR form-feed NUL \" ' \\ @ ` $ and the 23 operator constituents ? ! ~ < > = + - | & ^ # % * / ( ) {{ }} [ ] , ; plus the 2-byte letter e-acute, the 2-byte non-token character section-sign and a 4-byte emoji); every string of length {}..={} over the 14-symbol core (1 a . _ : space LF \" ' \\ @ + - section-sign); every string of length {}..={} over the 7-symbol layout alphabet (1 space tab LF CR \" @) not already in the core space; every string up to length 11 (thorough: 13) over the 4-symbol literal alphabet (a \" ' LF); every ordered pair of the 60 operator spellings tight, separated by a space, separated by a newline, and between an identifier and a number; each spelling alone. Each string is lexed by the real `lex`; Ok results are judged (lossless, non-empty, positions, operator spelling and longest match, class shape, blank-line separator), Err results are only counted. A case is non-trivial when `lex` returned Ok with at least two tokens; the enumerated strings are pairwise distinct by construction (overlaps between the spaces are skipped), so the count is of distinct cases.",
                 full_len,
                 full_len + 1,
                 core_len,
